@@ -222,7 +222,7 @@ func dash(s string) string {
 
 // exploreOps: Get / DecodeStream / typed decodes on a Reader opened without
 // faults; every fault index local to the call.
-func exploreOps(di int, d *doc) {
+func exploreOps(di int, d *doc, allModes bool) {
 	src := &faultSrc{data: d.data}
 	r, err := openWith(src, d, pdf.ErrorHandlingRecover)
 	if err != nil {
@@ -233,6 +233,13 @@ func exploreOps(di int, d *doc) {
 		if err != nil {
 			return
 		}
+	}
+	// the data-with-error modes triple the work: in the quick tier they are
+	// enumerated for every open path of every document, and for the Get / drain /
+	// decode calls of the hand-written documents and the first writer-made ones
+	opModes := fmodes
+	if !allModes {
+		opModes = fmodes[:2]
 	}
 	streams := map[pdf.Reference]*pdf.Stream{}
 	for _, ref := range d.refs {
@@ -266,7 +273,7 @@ func exploreOps(di int, d *doc) {
 		if clean.err != nil {
 			cb = 1
 		}
-		for _, fm := range fmodes {
+		for _, fm := range opModes {
 			id := fmt.Sprintf("d%d.op%d.%s", di, j, fm.String())
 			e.Line("cases.txt", "%s %c %s %d %s", id, o.kind, fm.String(), cb, kindsString(labels))
 			letters := make([]byte, 0, total)
@@ -370,8 +377,9 @@ func main() {
 	var docs []*doc
 	docs = append(docs, handDocs()...)
 	docs = append(docs, policyDocs()...)
+	nFixed := len(docs)
 	versions := []pdf.Version{pdf.V1_4, pdf.V1_7, pdf.V2_0, pdf.V1_7, pdf.V1_3, pdf.V1_6}
-	nw := e.Pick(14, 160)
+	nw := e.Pick(14, 100)
 	for i := 0; i < nw; i++ {
 		c := wcfg{
 			v:        versions[i%len(versions)],
@@ -402,7 +410,7 @@ func main() {
 		for mi := range modes {
 			exploreOpen(di, d, mi)
 		}
-		exploreOps(di, d)
+		exploreOps(di, d, e.Thorough || di < nFixed+5)
 		if !strings.Contains(d.class, "objstm") {
 			for mi := range modes {
 				exploreSeq(di, d, mi)
